@@ -1,0 +1,71 @@
+//go:build verif
+
+// Contracts for the fvc verification-condition generator in /verif (comment-only file; it adds no
+// code to the package and is only seen with -tags verif).
+
+package limiter
+
+//@ props C13
+
+// Ghost view of the limiter's store (whichever back end the manager uses): per key the current and
+// previous window counters and the window end. All three are 0 for a key without a live entry.
+//@ ghost lsCurr map[string]int
+//@ ghost lsPrev map[string]int
+//@ ghost lsExp map[string]int
+
+// manager.get / manager.set are the glue between the store and the ghost view (assumed; the msgpack
+// and memory back ends are not verified against it). An entry may have expired (TTL) when it is read.
+//@ func (*manager).get(m, key) assumed
+//@   modifies lsCurr, lsPrev, lsExp, item.currHits, item.prevHits, item.exp
+//@   ensures result != nil
+//@   ensures same-or-expired: (lsCurr[key] == old(lsCurr[key]) && lsPrev[key] == old(lsPrev[key]) && lsExp[key] == old(lsExp[key])) || (lsCurr[key] == 0 && lsPrev[key] == 0 && lsExp[key] == 0)
+//@   ensures other-keys-kept: forallS(k, k != key ==> lsCurr[k] == old(lsCurr[k]) && lsPrev[k] == old(lsPrev[k]) && lsExp[k] == old(lsExp[k]))
+//@   ensures item-is-entry: result.currHits == lsCurr[key] && result.prevHits == lsPrev[key] && result.exp == lsExp[key]
+
+//@ func (*manager).set(m, key, it, exp) assumed
+//@   modifies lsCurr, lsPrev, lsExp, item.currHits, item.prevHits, item.exp
+//@   ensures lsCurr == old(lsCurr)[key := old(it.currHits)] && lsPrev == old(lsPrev)[key := old(it.prevHits)] && lsExp == old(lsExp)[key := old(it.exp)]
+
+//@ func Config.MaxFunc assumed pure
+//@ func Config.Next assumed pure
+//@ func Config.KeyGenerator assumed pure
+//@ func Config.LimitReached assumed
+//@   modifies heap
+
+//@ macro bypass() = (called(Config.Next) && last(Config.Next)) || last(Config.MaxFunc) == 0
+//@ macro ownKey(k) = k == last(Config.KeyGenerator)
+
+// ---- fixed window ---------------------------------------------------------------------------------
+//@ func (FixedWindow).New$1
+//@   requires lock-free-on-entry: !held(mux)
+//@   requires window-positive: expiration > 0 && expiration < 4294967296
+//@   lock mux protects lsCurr, lsPrev, lsExp inv entry-wf: forallS(k, (lsExp[k] == 0 ==> lsCurr[k] == 0) && lsCurr[k] >= 0)
+//@   atcall (*manager).get: under-lock-own-key: held(mux) && ownKey(key)
+//@   atcall (*manager).set: under-lock-own-key: held(mux) && ownKey(key)
+//@   atcall (*manager).set: window-step: !called(@fiber.Ctx.Next) ==> ite(lsExp[key] == 0 || ts >= lsExp[key],
+//@ ..    it.currHits == 1 && it.exp == ts + expiration,
+//@ ..    it.currHits == lsCurr[key] + 1 && it.exp == lsExp[key])
+//@   atcall (*manager).set: skip-decrements-own-hit: called(@fiber.Ctx.Next) ==> it.currHits == ite(lsCurr[key] > 0, lsCurr[key] - 1, 0) && it.exp == lsExp[key]
+//@   atcall (*manager).set: skip-only-for-configured-class: called(@fiber.Ctx.Next) ==> cfg.SkipSuccessfulRequests || cfg.SkipFailedRequests
+//@   atcall @fiber.Ctx.Next: admitted-within-budget: !held(mux) && (bypass() || lsCurr[last(Config.KeyGenerator)] <= last(Config.MaxFunc))
+//@   atcall Config.LimitReached: rejected-only-when-exhausted: !held(mux) && lsCurr[last(Config.KeyGenerator)] > last(Config.MaxFunc)
+//@   atcall @fiber.Ctx.Set: retry-after-is-time-to-reset: key == "Retry-After" ==> val == fmtUint(lsExp[last(Config.KeyGenerator)] - ts, 10) && lsExp[last(Config.KeyGenerator)] > ts
+
+// ---- sliding window -------------------------------------------------------------------------------
+//@ macro rateOf(prev, curr, reset, window) = int(real(prev) * (real(reset) / real(window))) + curr
+
+//@ func (SlidingWindow).New$1
+//@   requires lock-free-on-entry: !held(mux)
+//@   requires window-positive: expiration > 0 && expiration < 4294967296
+//@   lock mux protects lsCurr, lsPrev, lsExp inv entry-wf: forallS(k, (lsExp[k] == 0 ==> lsCurr[k] == 0 && lsPrev[k] == 0) && lsCurr[k] >= 0)
+//@   atcall (*manager).get: under-lock-own-key: held(mux) && ownKey(key)
+//@   atcall (*manager).set: under-lock-own-key: held(mux) && ownKey(key)
+//@   atcall (*manager).set: window-step: !called(@fiber.Ctx.Next) ==> ite(lsExp[key] == 0,
+//@ ..    it.currHits == lsCurr[key] + 1 && it.prevHits == lsPrev[key] && it.exp == ts + expiration,
+//@ ..    ite(ts >= lsExp[key],
+//@ ..      it.currHits == 1 && it.prevHits == lsCurr[key] && it.exp == ite(ts - lsExp[key] >= expiration, ts + expiration, lsExp[key] + expiration),
+//@ ..      it.currHits == lsCurr[key] + 1 && it.prevHits == lsPrev[key] && it.exp == lsExp[key]))
+//@   atcall (*manager).set: skip-decrements-own-hit: called(@fiber.Ctx.Next) ==> it.currHits == ite(lsCurr[key] > 0, lsCurr[key] - 1, 0) && it.exp == lsExp[key] && it.prevHits == lsPrev[key]
+//@   atcall @fiber.Ctx.Next: admitted-within-rate: !held(mux) && (bypass() || rateOf(lsPrev[last(Config.KeyGenerator)], lsCurr[last(Config.KeyGenerator)], lsExp[last(Config.KeyGenerator)] - ts, expiration) <= last(Config.MaxFunc))
+//@   atcall Config.LimitReached: rejected-only-when-exhausted: !held(mux) && rateOf(lsPrev[last(Config.KeyGenerator)], lsCurr[last(Config.KeyGenerator)], lsExp[last(Config.KeyGenerator)] - ts, expiration) > last(Config.MaxFunc)
+//@   atcall @fiber.Ctx.Set: retry-after-is-time-to-reset: key == "Retry-After" ==> val == fmtUint(lsExp[last(Config.KeyGenerator)] - ts, 10) && lsExp[last(Config.KeyGenerator)] > ts
